@@ -198,7 +198,16 @@ class Unit:
         if has_spec:
             G('\n')
             done = not canary
+            keep = getattr(self, 'clause_filter', {}).get(disp)
+            drop_lines = set()
+            if keep is not None:
+                for cl in c.spec.clauses():
+                    if cl['section'] == 'ensures' and cl['first'] not in keep:
+                        drop_lines.update(range(cl['first'], cl['last'] + 1))
             for t, no in c.spec.lines:
+                if no in drop_lines:
+                    em.emit('// (clause isolated out)\n', ('gen', None, 0))
+                    continue
                 code = re.sub(r'//.*$', '', t).strip()
                 if not done and re.match(r'decreases\b', code):
                     em.emit('    ensures\n' + cline, ('canary', disp, 0)); done = True
